@@ -15,5 +15,3 @@ for c in $CH; do
   grep -A1 '^VIOLATION' /tmp/st-$P.$c.log | head -6
 done
 git -C /repo worktree remove --force $WT
-# regenerate translated models from the real repo again
-cd /verif && PYTHONPATH=/repo /venv/bin/python -W ignore harness/genall.py > /dev/null 2>&1
